@@ -220,6 +220,29 @@ def run(ctx):
                 exp_def = (f"(Some (99, {after_obj['every']}, {str(bool(after_obj['save_config'])).lower()}, {str(bool(after_obj['save_flow'])).lower()}, "
                            f"{str(bool(after_obj['saved_config'])).lower()}, {str(bool(after_obj['saved_flow'])).lower()}))")
             rows.append(f"chk {to_coq(prog)} {ds} {outcome} [{'; '.join(str(k) for k in closes)}] {exp_def}")
+        # the SAME handler object entered again while it is active (pool kept open), then left twice — normally and by an exception:
+        # what is put back at the end is what was there before the first entry
+        for how in ("normal", "exception"):
+            tgt = sd.Target(1)
+
+            def ll2(samples, map_fn=map):
+                return tgt.log_likelihood(samples)
+
+            def lp2(samples, map_fn=map):
+                return tgt.log_prior(samples)
+            a = Aspire(log_likelihood=ll2, log_prior=lp2, dims=1, parameters=["x_0"], flow=sd.FakeFlow(1), xp=NS["numpy"], flow_backend="fake")
+            h = a.enable_pool(FakePool(1, []), close_pool=False, parallelize_prior=True)
+            ctx.count(("re-entered-handler", how), True, kind="pool/same-handler-entered-twice")
+            try:
+                with h:
+                    with h:
+                        if how == "exception":
+                            raise Boom()
+            except Boom:
+                pass
+            if a.log_likelihood is not ll2 or a.log_prior is not lp2:
+                ctx.violation("callable-not-restored:same-handler-entered-twice", f"enable_pool handler entered twice (nested) and left ({how}): log_likelihood is the "
+                              f"original: {a.log_likelihood is ll2}, log_prior: {a.log_prior is lp2}", {"program": "with h: with h: ...", "left_by": how})
     finally:
         shutil.rmtree(root, ignore_errors=True)
     t = """From Coq Require Import List Bool Arith.
